@@ -11,7 +11,11 @@
    generated record like any other attribute; an assignment to one of them on the live object ([SetMaxOps] ...
    [SetIdleTimeout]) is the generated field update, and the methods read the fields at call time: [tproj] of the
    model's configuration IN FORCE ([cfg_step]) and state.  What stays outside: the lock discipline (Gen_C09.v
-   and [no_self_deadlock]), the event log and printing, and the assumption that callbacks return. *)
+   and [no_self_deadlock]), the event log and printing.  The generated methods take the callbacks to return; a
+   callback that RAISES cuts the call at that notification: [gstep_cb] applies the cut of Model.step_cb to what the
+   generated methods compute and [gstep_cb_ok] proves it equal to [step_cb] (tick on a NASCENT object is cut inside
+   the generated start, renew before the generated assignment of None to _senescence_reason).  [grun_case] runs the
+   generated methods on all three kinds of case (plain, failing callbacks, the linearisation of two threads). *)
 From Coq Require Import ZArith Bool List PrimFloat.
 From Verif Require Import C09.Model C09.Proofs gen.Gen_C09_impl.
 Import ListNotations.
@@ -198,6 +202,87 @@ Fixpoint grun_obs (g : gtel) (t : Z) (ops : list op) : list (list Z) :=
       :: grun_obs g' (clock_after t o) rest
   end.
 
+(* callbacks that raise, on the generated methods: the same cut of a call at the notification that raises
+   ([step_cb] of Model.v), applied to what the generated method computes; tick on a NASCENT object is cut inside
+   the generated start, renew before the generated assignment `_senescence_reason = None` *)
+Definition gcut_first (g g' : gtel) (t : Z) (o : op) : gtel :=
+  match o with
+  | Tick _ => if Model.phase_eqb (t_ph g) Nascent then fst (fst (t_start g t)) else g'
+  | Renew _ _ => t_set_sen_reason g' (t_sen_reason g)
+  | _ => g'
+  end.
+
+Definition gstep_cb (c : cbs) (g : gtel) (t : Z) (o : op) : gtel * xoutcome * list trans :=
+  let '(g', r, tr) := gstep g t o in
+  match tr with
+  | [] => (g', Done r, [])
+  | t1 :: rest =>
+      if pc_raises c t1 then (gcut_first g g' t o, CallbackRaised, [t1])
+      else if to_senescent t1 && sen_raise c then (g', CallbackRaised, [t1])
+      else match rest with
+           | [] => (g', Done r, tr)
+           | t2 :: _ => if pc_raises c t2 || (to_senescent t2 && sen_raise c)
+                        then (g', CallbackRaised, tr) else (g', Done r, tr)
+           end
+  end.
+
+Theorem gstep_cb_ok : forall c cfg s o,
+  gstep_cb c (tproj cfg s) (now s) o =
+  (tproj (cfg_step cfg o) (xstate depleted_f64 rate_hit_f64 current c cfg s o),
+   xout depleted_f64 rate_hit_f64 current c cfg s o,
+   xtrans depleted_f64 rate_hit_f64 current c cfg s o).
+Proof.
+  intros c cfg s o. unfold gstep_cb, xstate, xout, xtrans, step_cb.
+  rewrite gstep_ok.
+  destruct (step depleted_f64 rate_hit_f64 current cfg s o) as [[s' r] tr] eqn:E. cbn [fst snd].
+  destruct tr as [|t1 rest]; [reflexivity|].
+  destruct (pc_raises c t1).
+  - cbn [fst snd]. f_equal. f_equal.
+    destruct o; cbn [gcut_first cut_first cfg_step]; try reflexivity.
+    (* tick *) cbn [tproj t_ph].
+    destruct (Model.phase_eqb (ph s) Nascent); [|reflexivity].
+    pose proof (gstep_ok cfg s Start) as G. cbn [gstep step cfg_step fst snd] in G. rewrite G. reflexivity.
+  - destruct (to_senescent t1 && sen_raise c); [reflexivity|].
+    destruct rest as [|t2 rest']; [reflexivity|].
+    destruct (pc_raises c t2 || (to_senescent t2 && sen_raise c)); reflexivity.
+Qed.
+
+Definition gxobs_row (g : gtel) (r : xoutcome) (tr : list trans) : list Z :=
+  [xret_code r; phase_code (t_ph g); t_len g; t_err_count g; t_ops_count g; t_renewals g;
+   reason_code (t_sen_reason g); ot_code (t_started_at g); ot_code (t_last_activity g)]
+  ++ flat_map (fun t : trans => [phase_code (fst t); phase_code (snd t)]) tr.
+
+Fixpoint grun_xobs (g : gtel) (t : Z) (h : list (cbs * op)) : list (list Z) :=
+  match h with
+  | [] => []
+  | (c, o) :: rest =>
+      let '(g', r, tr) := gstep_cb c g t o in
+      (gxobs_row g' r tr ++ (if is_assignment o then gcfg_row g' else []))
+      :: grun_xobs g' (clock_after t o) rest
+  end.
+
+(* two threads: the generated methods run in the order of the linearisation *)
+Fixpoint grun_lin (g : gtel) (t : Z) (a b : list op) (lin : list bool) : list (list Z) :=
+  match lin with
+  | [] => [[-1; Z.of_nat (List.length a); Z.of_nat (List.length b)]]
+  | w :: rest =>
+      match (if w then b else a) with
+      | [] => [[-998]]
+      | o :: more =>
+          let '(g', r, tr) := gstep g t o in
+          ((if w then 1 else 0) :: gobs_row g' r tr)
+          :: grun_lin g' (clock_after t o) (if w then a else more) (if w then more else b) rest
+      end
+  end.
+
 Definition grun_case (c : case) : list (list Z) :=
-  let '(_, cfg, ops) := c in
-  cfg_row cfg :: gobs_row (tproj cfg (init cfg)) (Ret RNone) [] :: grun_obs (tproj cfg (init cfg)) (now (init cfg)) ops.
+  let '(_, cfg, h) := c in
+  let g0 := tproj cfg (init cfg) in
+  let t0 := now (init cfg) in
+  cfg_row cfg :: gobs_row g0 (Ret RNone) [] ::
+  match h with
+  | Plain ops => grun_obs g0 t0 ops
+  | Seq h => grun_xobs g0 t0 h
+  | Par pre a b lin =>
+      grun_obs g0 t0 pre ++ grun_lin (fst (gexec g0 t0 pre)) (snd (gexec g0 t0 pre)) a b lin
+  end.
